@@ -54,6 +54,11 @@ func buildVC(prog *Program, key string) (*VC, error) {
 	vc.Run()
 	// unresolved loop ordinals / call-site assertions
 	if fc != nil {
+		for i, tr := range fc.Transfers {
+			if vc.transferHit[i] == 0 {
+				vc.unsupportedf("CONTRACT-UNRESOLVED transfers %s in %s: no such call in the function", tr.Callee, key)
+			}
+		}
 		for i, cp := range fc.CallPres {
 			if vc.callPreHit[i] == 0 {
 				vc.unsupportedf("CONTRACT-UNRESOLVED callpre %s in %s: no such call in the function", cp.Callee, key)
